@@ -186,7 +186,12 @@ func (g *Gen) discharge(obls []*Obligation, workDir string, timeoutS int, all bo
 						o.Result, o.Backend, o.Ms, o.Output = "unsat", r0.backend+"/light3", r0.ms, r0.output
 						if all {
 							// cross-check with the other solvers on the same variant
-							r1 := runSolversV([]string{lf}, timeoutS, true, false)
+							// (20 s per solver: a refutation of a 3-second proof shows up quickly or not at all)
+							xt := timeoutS
+							if xt > 20 {
+								xt = 20
+							}
+							r1 := runSolversV([]string{lf}, xt, true, false)
 							if r1.result == "sat" {
 								o.Result = "unknown"
 								o.Output = "solver disagreement on light3 variant:\n" + r1.output
